@@ -34,18 +34,18 @@ def run_case(ctx, f, kw_plain, kw_lst, mode_linked, mode_mlinked, unknown):
     d = {k: Obj("default_of_" + k) for k in ("plain", "lst", "const", "cboth", "linked", "mlinked", "tup")}
     d["tup"].attrs["__pytype__"] = "tuple"        # a tuple holding mutable parts: immutable itself, not its contents
     d["lst"].attrs["__pytype__"] = d["mlinked"].attrs["__pytype__"] = d["cboth"].attrs["__pytype__"] = "list"
-    mk = lambda n, **a: Obj("P_" + n, name=n, default=d[n], instantiate=a.get("instantiate", False), constant=a.get("constant", False),
+    mk = lambda n, **a: Obj("P_" + n, name=n, default=d[n], instantiate=a.get("instantiate", False), constant=a.get("constant", False), readonly=False,
                             allow_refs=a.get("allow_refs", False), owner=Obj("Cls"))
     params = {
-        "name": Obj("P_name", name="name", default="Cls", instantiate=False, constant=True, allow_refs=False, owner=Obj("Cls")),
+        "name": Obj("P_name", name="name", default="Cls", instantiate=False, constant=True, readonly=False, allow_refs=False, owner=Obj("Cls")),
         "plain": mk("plain"), "lst": mk("lst", instantiate=True), "const": mk("const", constant=True),
         "cboth": mk("cboth", constant=True, instantiate=True), "linked": mk("linked", allow_refs=True),
         "mlinked": mk("mlinked", allow_refs=True, instantiate=True),
         "tup": mk("tup", instantiate=True),
         # constant AND instantiate=True with a None default (what a constant List / Dict parameter left at None is)
-        "cbnone": Obj("P_cbnone", name="cbnone", default=None, instantiate=True, constant=True, allow_refs=False, owner=Obj("Cls")),
+        "cbnone": Obj("P_cbnone", name="cbnone", default=None, instantiate=True, constant=True, readonly=False, allow_refs=False, owner=Obj("Cls")),
         # a constant whose default is None: "nothing yet" is a value too, and must be pinned like any other
-        "cnone": Obj("P_cnone", name="cnone", default=None, instantiate=False, constant=True, allow_refs=False, owner=Obj("Cls")),
+        "cnone": Obj("P_cnone", name="cnone", default=None, instantiate=False, constant=True, readonly=False, allow_refs=False, owner=Obj("Cls")),
     }
     values = {}
     inst = Obj("instance", _param__private=Obj("private", values=values, initialized=False))
@@ -61,7 +61,9 @@ def run_case(ctx, f, kw_plain, kw_lst, mode_linked, mode_mlinked, unknown):
     UNDEF, SKIP = Obj("Undefined"), Obj("Skip")
     given = {}
     vals = {}
-    if kw_plain:
+    if kw_plain == "default-object":
+        given["plain"] = vals["plain"] = d["plain"]          # the keyword restates the class default: the very same object
+    elif kw_plain:
         given["plain"] = vals["plain"] = Obj("value_for_plain")
     if kw_lst:
         given["lst"] = vals["lst"] = Obj("value_for_lst")
@@ -133,7 +135,7 @@ def model(ctx):
     f = ctx.repo.func(P + "Parameters._setup_params")
     problems = {"C12": [], "C14": [], "C08": [], "C10": [], "C01": []}
     n = 0
-    for kw_plain, kw_lst, ml, mm, unknown in itertools.product([False, True], [False, True], MODES, MODES, [False, True]):
+    for kw_plain, kw_lst, ml, mm, unknown in itertools.product([False, True, "default-object"], [False, True], MODES, MODES, [False, True]):
         try:
             o, values, snap, sets, given, refinfo, d, copies, (UNDEF, SKIP) = run_case(ctx, f, kw_plain, kw_lst, ml, mm, unknown)
         except Unsupported as e:
@@ -175,6 +177,11 @@ def model(ctx):
                     want_sets.append((k, resolved))
         if [(a, id(b)) for a, b in sets] != [(a, id(b)) for a, b in want_sets]:
             problems["C08"].append("%s: the constructor assigns %s, specification %s" % (desc, [(a, getattr(b, "name", b)) for a, b in sets], [(a, b.name) for a, b in want_sets]))
+            lost = [(a, b) for a, b in want_sets if not any(a == x and b is y for x, y in sets)]
+            if lost:
+                problems["C01"].append("%s: the value given for `%s`%s never reaches the validating setter: on the constructor route it is accepted without validation (a class "
+                                       "default need not satisfy the constraints in force: None defaults, constraints tightened later)" % (
+                                           desc, lost[0][0], " (the very object the class default is)" if kw_plain == "default-object" and lost[0][0] == "plain" else ""))
         # an instantiate=True parameter whose keyword assigned nothing keeps its private copy
         if "mlinked" in given and not any(a == "mlinked" for a, _ in want_sets):
             v = values.get("mlinked")
